@@ -75,8 +75,7 @@ def handlePlumb (site open_ b r s : String) : String :=
   match site?, open?, parseInt b, parseInt r, parseInt s with
   | some st, some o, some b, some r, some s =>
     let c := plumb st o ⟨b, r, s⟩
-    let so := sockOpts c
-    s!"{c.receiveBufferSize} {c.sendBufferSize} {showOptInt so.soRcvBuf} {showOptInt so.soSndBuf}"
+    s!"{c.receiveBufferSize} {c.sendBufferSize}"
   | _, _, _, _, _ => "bad-op"
 
 def handle : List String → String
@@ -101,6 +100,13 @@ def handle : List String → String
       | .error e => e.str
     | _, _, _, _, _ => "bad-op"
   | ["pl", site, open_, b, r, s] => handlePlumb site open_ b r s
+  | ["so", r, s] =>
+    -- what `initConnUDP` asks the kernel for, given `conn.Config{ReceiveBufferSize: r, SendBufferSize: s}`
+    match parseInt r, parseInt s with
+    | some r, some s =>
+      let so := Scion.Plumb.sockOpts { receiveBufferSize := r, sendBufferSize := s }
+      s!"{showOptInt so.soRcvBuf} {showOptInt so.soSndBuf}"
+    | _, _ => "bad-op"
   | _ => "bad-op"
 
 end Driver.Rcfg
